@@ -475,4 +475,49 @@ def gen_grammar_v(repo):
     return "\n".join(out)
 
 
-GENERATORS = [("TokenTables.v", gen_token_tables), ("ParserSkeleton.v", gen_parser_skeleton), ("GrammarY.v", gen_grammar_v)]
+FORMER = {
+    "Unifier": "FHole", "Type": "FType", "Variable": "FVar", "Lambda": "FLam", "Pi": "FPi", "Application": "FApp", "Let": "FLet",
+    "Integer": "FInt", "IntegerLiteral": "FLit", "Negation": "FNeg", "Sum": "FSum", "Difference": "FDiff", "Product": "FProd",
+    "Quotient": "FQuot", "LessThan": "FLt", "LessThanOrEqualTo": "FLe", "EqualTo": "FEq", "GreaterThan": "FGt",
+    "GreaterThanOrEqualTo": "FGe", "Boolean": "FBool", "True": "FTrue", "False": "FFalse", "If": "FIf",
+}
+
+
+def _variant_list(text, what):
+    vs = re.findall(r"(?:Variant::)?([A-Z][A-Za-z]+)(?:\([_, ]*\))?", text)
+    out = []
+    for v in vs:
+        if v not in FORMER:
+            raise Unrecognised("%s: variant %s" % (what, v))
+        out.append(FORMER[v])
+    return out
+
+
+def gen_value_forms(repo):
+    ev = _strip_comments(_read(repo, "src/evaluator.rs"))
+    m = re.search(r"pub fn is_value\(term: &Term\) -> bool \{\s*match term\.variant \{(.*?)=> true,(.*?)=> false,\s*\}\s*\}", ev, flags=re.S)
+    if not m:
+        raise Unrecognised("is_value")
+    values = _variant_list(m.group(1), "is_value true list")
+    nonvalues = _variant_list(m.group(2), "is_value false list")
+    if sorted(values + nonvalues) != sorted(FORMER.values()):
+        raise Unrecognised("is_value does not list every variant once")
+    tm = _strip_comments(_read(repo, "src/term.rs"))
+    m = re.search(r"fn group\(term: &Term\) -> String \{\s*match &term\.variant \{\s*Variant::Unifier\(subterm, _\) => \{(.*?)\}\s*\}\s*(Variant::Type.*?)=> format!\(\"\{term\}\"\),(.*?)=> format!\(\"\(\{term\}\)\"\),\s*\}\s*\}", tm, flags=re.S)
+    if not m:
+        raise Unrecognised("group")
+    if "group(&subterm)" not in m.group(1) or 'format!("{term}")' not in m.group(1):
+        raise Unrecognised("group: unifier arm")
+    bare = _variant_list(m.group(2), "group bare list")
+    paren = _variant_list(m.group(3), "group parenthesised list")
+    if sorted(bare + paren + ["FHole"]) != sorted(FORMER.values()):
+        raise Unrecognised("group does not list every variant once")
+    out = ["(* GENERATED by tools/extract_tables.py from /repo/src/evaluator.rs (is_value) and /repo/src/term.rs (group). Do not edit. *)",
+           "From Coq Require Import List.", "Import ListNotations.", "Require Import Gram.Model.Term.", "",
+           "Definition value_formers : list former := [%s]." % "; ".join(values), "",
+           "(* term formers that `group` prints without parentheses *)",
+           "Definition group_bare : list former := [%s]." % "; ".join(bare), ""]
+    return "\n".join(out)
+
+
+GENERATORS = [("TokenTables.v", gen_token_tables), ("ValueForms.v", gen_value_forms), ("ParserSkeleton.v", gen_parser_skeleton), ("GrammarY.v", gen_grammar_v)]
